@@ -45,7 +45,12 @@ Full(m) ==
   IF ProdSize(CountFields(m)) > FullMax THEN {}
   ELSE { [n \in FieldNames(m) |-> IF n \in CNames(m) THEN a[n] ELSE Neutral(ByName(m, n))] :
            a \in {b \in [CNames(m) -> UNION {Dom(f) : f \in Fields(m)}] : \A n \in CNames(m) : b[n] \in Dom(ByName(m, n))} }
-Vectors(m) == Sparse(m) \cup Full(m)
+\* names: the full product (every kind x offset x width x length x extension case)
+NameVectors(m) ==
+  {[kind |-> k, off |-> o, wid |-> w, dlen |-> d, ext |-> x] :
+     k \in ByName(m, "kind").dom, o \in ByName(m, "off").dom, w \in ByName(m, "wid").dom,
+     d \in ByName(m, "dlen").dom, x \in ByName(m, "ext").dom}
+Vectors(m) == IF m = "dirnames" THEN NameVectors(m) ELSE Sparse(m) \cup Full(m)
 
 MCInit == /\ fmt \in Fmts
           /\ vec \in Vectors(fmt)
